@@ -330,6 +330,7 @@ func mergeRoots(
 	rand.Shuffle(len(roots), func(i, j int) {
 		roots[i], roots[j] = roots[j], roots[i]
 	})
+	verifPermute(roots)
 
 	mergedRoots := make(map[string][]byte, len(roots))
 	var tree *crdt.Tree
